@@ -38,7 +38,7 @@ QUOTA = {'quick': 45, 'thorough': 900}
 REQUIRED = {'quick': {'evaluations': 8000, 'path_queries_compared': 6000, 'bare_id_queries': 800, 'subset_selector_queries': 500,
                       'attribute_step_queries': 500, 'replication_envelope_results': 800, 'invariance_checks': 300,
                       'corpus_messages': 8, 'sliced_queries': 3000, 'malformed_queries_interleaved': 500,
-                      'query_result_renderings': 1500},
+                      'query_result_renderings': 1500, 'same_layout_different_bitmap_messages': 12},
             'thorough': {'evaluations': 150000, 'path_queries_compared': 120000, 'bare_id_queries': 15000,
                          'subset_selector_queries': 10000, 'attribute_step_queries': 10000, 'replication_envelope_results': 15000,
                          'invariance_checks': 5000, 'corpus_messages': 100, 'sliced_queries': 60000}}
@@ -192,17 +192,29 @@ def query_message(ctx, q, m, spec, origin, npaths):
                 ctx.violate('query-result-differs/%s/%s/%s' % (shape, kind, mode),
                             'query %r returned %r, evaluation over the nested view gives %r' % (full, obs[1], ref[1]),
                             dict(spec, expr=full), expected=ref[1], observed=obs[1])
-    # ---- subset selectors on a few paths
-    for p in allp[:4]:
+    # ---- subset selectors on a few paths: queries over SEVERAL subsets at once, judged per subset against that
+    # subset's own nested view (attribute steps first: which node owns a bitmap-driven attribute is per-subset data)
+    attr_paths = [p for p in allp if any(sep == '.' for sep, _ in p)]
+    rng.shuffle(attr_paths)
+    sel_paths = attr_paths[:(8 if origin == 'shape' else 4)] + [p for p in allp if p not in attr_paths[:8]][:3]
+    for p in sel_paths:
         comps = [(s, i, None) for s, i in p]
         expr = expr_of(comps)
-        try:
-            refs = [norm(nested.ref_query(nodes_all[k], comps)) for k in range(nsub)]
-        except nested.Unspec:
+        refs = []
+        for k in range(nsub):
+            try:
+                refs.append(norm(nested.ref_query(nodes_all[k], comps)))
+            except nested.Unspec:
+                refs.append(None)     # the path is not defined in this subset: only selections avoiding it are judged
+        if all(r is None for r in refs):
             continue
-        for sel, fn in [(None, lambda n: list(range(n)))] + rng.sample(SELECTORS, 3):
+        for sel, fn in [(None, lambda n: list(range(n)))] + rng.sample(SELECTORS, 3) + [('@[1:]', lambda n: list(range(n))[1:]),
+                                                                                     ('@[:-1]', lambda n: list(range(n))[:-1])]:
             want_idx = fn(nsub)
             if sel == '@[1]' and nsub < 2:
+                continue
+            if not want_idx or any(refs[i] is None for i in want_idx):
+                ctx.count('selector_over_undefined_subset_skipped')
                 continue
             full = (sel or '') + expr
             ctx.count('subset_selector_queries')
@@ -293,6 +305,13 @@ def invariance(ctx, q, dec, decc, enc, msg, m, used, spec):
     else:
         ctx.count('unscoped_template_not_compared_compiled')
     try:
+        tdm = td_of(m)
+        if not m.is_compressed.value and (
+                any([str(d) for d in ds] != [str(d) for d in tdm.decoded_descriptors_all_subsets[0]] for ds in tdm.decoded_descriptors_all_subsets)
+                or any(dict(lk) != dict(tdm.bitmap_links_all_subsets[0]) for lk in tdm.bitmap_links_all_subsets)):
+            # subsets that differ in layout or in what their bitmaps designate cannot be stored compressed at all
+            ctx.count('recompression_not_possible')
+            raise LookupError
         fj = json.loads(json.dumps(FlatJsonRenderer().render(m), cls=EntityEncoder))
         s3 = fj[-3]
         flag_idx = 4  # [length, reserved, n_subsets, is_observation, is_compressed, flag_bits, descriptors]
@@ -302,6 +321,8 @@ def invariance(ctx, q, dec, decc, enc, msg, m, used, spec):
             variants.append(('other-compression', m2))
         else:
             ctx.count('recompression_changes_values_skipped')
+    except LookupError:
+        pass
     except Exception:
         ctx.count('recompression_not_possible')
     for expr in used[:25]:
@@ -354,6 +375,20 @@ def run(ctx):
                 ctx.count('decode_raises')
                 continue
             spec = dict(origin='shape', shape=name, ids=ids, compressed=comp, hex=msg.bytes.hex())
+            used = query_message(ctx, q, m, spec, 'shape', 40)
+            invariance(ctx, q, dec, decc, enc, msg, m, used, spec)
+    for nsub in (2, 3, 4, 5, 3, 4):
+        for name, msg in cases.same_layout_cases(rng, nsub=nsub):
+            n += 1
+            if not ctx.mine(n):
+                continue
+            try:
+                m = dec.process(msg.bytes)
+            except Exception:
+                ctx.count('decode_raises')
+                continue
+            ctx.count('same_layout_different_bitmap_messages')
+            spec = dict(origin='shape', shape=name, ids=msg.ids, compressed=False, nsub=nsub, hex=msg.bytes.hex())
             used = query_message(ctx, q, m, spec, 'shape', 40)
             invariance(ctx, q, dec, decc, enc, msg, m, used, spec)
     repo = os.environ.get('VERIF_REPO', '/repo')
